@@ -54,10 +54,9 @@ func c06(w *core.World, r *core.Report) {
 	cleanup := w.Func(types_, "TransactionManager", "CleanupTransaction")
 	getTx := w.Func(types_, "TransactionManager", "GetTransaction")
 	register := w.Func(types_, "TransactionManager", "RegisterTransaction")
-	ongoing := w.Func(types_, "TransactionManager", "transactionOngoing")
 	txset := w.Func("pkg/datastore", "Datastore", "TransactionSet")
 	low := w.Func("pkg/datastore", "Datastore", "lowlevelTransactionSet")
-	if confirm == nil || cancel == nil || cleanup == nil || getTx == nil || register == nil || ongoing == nil || txset == nil || low == nil {
+	if confirm == nil || cancel == nil || cleanup == nil || getTx == nil || register == nil || txset == nil || low == nil {
 		return
 	}
 
@@ -70,34 +69,36 @@ func c06(w *core.World, r *core.Report) {
 			w.NoteUnresolved("parameter id of " + core.FuncKey(fn))
 			continue
 		}
-		for _, c := range core.Calls(fn) {
-			isEffect := core.CalleeIs(c, effectKeys...)
-			delegates := core.CalleeIs(c, kCleanupTx, "datastore/types.TransactionManager.Confirm", "datastore/types.TransactionManager.Cancel")
-			if !isEffect && !delegates {
-				continue
-			}
-			site := core.Site(fn, "call %s", core.CalleeKey(c))
-			if delegates {
-				// delegation to a method that checks the id itself is fine when the same id is passed
-				args := core.CallArgs(c)
-				same := false
-				for _, a := range args {
-					if core.HasOrigin(a, id) {
-						same = true
+		core.WithHost(fn, func() {
+			for _, c := range core.Calls(fn) {
+				isEffect := core.CalleeIs(c, effectKeys...)
+				delegates := core.CalleeIs(c, kCleanupTx, "datastore/types.TransactionManager.Confirm", "datastore/types.TransactionManager.Cancel")
+				if !isEffect && !delegates {
+					continue
+				}
+				site := core.Site(fn, "call %s", core.CalleeKey(c))
+				if delegates {
+					// delegation to a method that checks the id itself is fine when the same id is passed
+					args := core.CallArgs(c)
+					same := false
+					for _, a := range args {
+						if core.HasOrigin(a, id) {
+							same = true
+						}
 					}
+					if same || idChecked(c, fn, id) {
+						r.OK("ID-BEFORE-EFFECT", site, w.InstrPos(c), "delegates with the caller's id (callee checked separately)")
+					} else {
+						r.Viol("ID-BEFORE-EFFECT", site, w.InstrPos(c), "delegates with a different id and without a preceding id test")
+					}
+					continue
 				}
-				if same || idChecked(c, fn, id) {
-					r.OK("ID-BEFORE-EFFECT", site, w.InstrPos(c), "delegates with the caller's id (callee checked separately)")
-				} else {
-					r.Viol("ID-BEFORE-EFFECT", site, w.InstrPos(c), "delegates with a different id and without a preceding id test")
-				}
-				continue
+				r.Check(idChecked(c, fn, id), "ID-BEFORE-EFFECT", site, w.InstrPos(c), "effect on the open transaction must be reachable only after the id matched")
 			}
-			r.Check(idChecked(c, fn, id), "ID-BEFORE-EFFECT", site, w.InstrPos(c), "effect on the open transaction must be reachable only after the id matched")
-		}
-		for _, st := range core.StoresToField(fn, kTMSlot) {
-			r.Check(idChecked(st, fn, id), "ID-BEFORE-EFFECT", core.Site(fn, "store transaction slot"), w.InstrPos(st), "clearing/replacing the open transaction must be reachable only after the id matched")
-		}
+			for _, st := range core.StoresToField(fn, kTMSlot) {
+				r.Check(idChecked(st, fn, id), "ID-BEFORE-EFFECT", core.Site(fn, "store transaction slot"), w.InstrPos(st), "clearing/replacing the open transaction must be reachable only after the id matched")
+			}
+		})
 	}
 	// GetTransaction: non-nil transaction returned only when ids are equal
 	{
@@ -141,28 +142,18 @@ func c06(w *core.World, r *core.Report) {
 				r.Viol("EXCLUSIVE", site, w.InstrPos(st), "the open-transaction slot is written outside RegisterTransaction")
 				continue
 			}
-			r.Check(core.GuardedByBoolCall(st, false, "datastore/types.TransactionManager.transactionOngoing"), "EXCLUSIVE", site+" guard", w.InstrPos(st), "must be guarded by !transactionOngoing()")
+			r.Check(guardedBySlot(st, false), "EXCLUSIVE", site+" guard", w.InstrPos(st), "must execute only when the slot was found empty (slot == nil, directly or through a predicate such as transactionOngoing())")
 			r.Check(lockedBefore(st, "datastore/types.TransactionManager.tmMutex"), "EXCLUSIVE", site+" lock", w.InstrPos(st), "must execute with tmMutex held (Lock before, Unlock deferred)")
 		}
 	}
 	if nStores == 0 {
 		r.Viol("EXCLUSIVE", core.Site(register, "store transaction slot (non-nil)"), w.Pos(register.Pos()), "RegisterTransaction never registers the transaction")
 	}
-	// composite literals of TransactionManager must not preset the slot
 	{
-		ok := false
-		for _, ret := range core.Returns(ongoing) {
-			if len(ret.Results) == 1 {
-				if x, nilOnTrue, isNil := core.NilTest(ret.Results[0]); isNil && !nilOnTrue && core.FieldOf(x) == kTMSlot {
-					ok = true
-				}
-			}
-		}
-		r.Check(ok, "EXCLUSIVE", core.Site(ongoing, "definition"), w.Pos(ongoing.Pos()), "transactionOngoing() must be 'transaction != nil'")
-		// ongoing branch of RegisterTransaction returns (nil, non-nil error)
+		// occupied branch of RegisterTransaction returns (nil, non-nil error)
 		n := 0
 		for _, ret := range core.Returns(register) {
-			if !core.GuardedByBoolCall(ret, true, "datastore/types.TransactionManager.transactionOngoing") {
+			if !guardedBySlot(ret, true) {
 				continue
 			}
 			n++
@@ -171,7 +162,7 @@ func c06(w *core.World, r *core.Report) {
 				"EXCLUSIVE", core.Site(register, "return while ongoing"), w.InstrPos(ret), "while a transaction is open RegisterTransaction must return no guard and a non-nil error")
 		}
 		if n == 0 {
-			r.Viol("EXCLUSIVE", core.Site(register, "return while ongoing"), w.Pos(register.Pos()), "no return guarded by transactionOngoing()==true")
+			r.Viol("EXCLUSIVE", core.Site(register, "return while ongoing"), w.Pos(register.Pos()), "no return is guarded by the slot being occupied")
 		}
 	}
 
@@ -223,7 +214,8 @@ func c06(w *core.World, r *core.Report) {
 					continue
 				}
 				n++
-				key := core.FuncKey(e.Caller) + " -> " + core.FuncKey(f)
+				// a caller that is an unexported helper inlined into one function counts as that function
+				key := core.HostKey(e.Caller) + " -> " + core.FuncKey(f)
 				how, ok := allowed[key]
 				if ok && how == "defer" {
 					_, ok = e.Site.(*ssa.Defer)
@@ -250,8 +242,11 @@ func c06(w *core.World, r *core.Report) {
 				if !reach[f] || f.Signature.Recv() == nil || core.TypeKey(f.Signature.Recv().Type()) != kTM {
 					continue
 				}
-				for _, c := range core.OwnCallsTo(f, kRollbackIface) {
-					after, tr := core.AlwaysAfter(c, func(in ssa.Instruction) bool {
+				if core.IsInlined(f) {
+					continue // judged as part of the method it is inlined into
+				}
+				for _, c := range core.CallsTo(f, kRollbackIface) {
+					after, tr := core.AlwaysAfterIn(f, c, func(in ssa.Instruction) bool {
 						if st, ok := in.(*ssa.Store); ok {
 							if fa, ok := st.Addr.(*ssa.FieldAddr); ok && core.FieldKey(fa) == kTMSlot && core.IsNilConst(st.Val) {
 								return true
@@ -597,3 +592,48 @@ func guardedByNilResult(x ssa.Instruction, c *ssa.Call) bool {
 }
 
 var _ = types.Typ
+
+// slotTest: is cond a test of the open-transaction slot? occupiedOnTrue tells what its true outcome means. Either a
+// nil test of the slot itself, or a call of a predicate of package types whose every return is such a nil test.
+func slotTest(cond ssa.Value) (isTest, occupiedOnTrue bool) {
+	if x, nilOnTrue, ok := core.NilTest(cond); ok && core.FieldOf(x) == kTMSlot {
+		return true, !nilOnTrue
+	}
+	v, neg := core.StripNot(cond)
+	for _, oc := range core.OriginCalls(v) {
+		g := oc.Call.StaticCallee()
+		if g == nil || g.Blocks == nil || g.Signature.Results().Len() != 1 {
+			continue
+		}
+		all, occ := true, false
+		rets := core.Returns(g)
+		for i, ret := range rets {
+			x, nilOnTrue, ok := core.NilTest(ret.Results[0])
+			if !ok || core.FieldOf(x) != kTMSlot {
+				all = false
+				break
+			}
+			if i > 0 && occ != !nilOnTrue {
+				all = false
+			}
+			occ = !nilOnTrue
+		}
+		if all && len(rets) > 0 {
+			if neg {
+				occ = !occ
+			}
+			return true, occ
+		}
+	}
+	return false, false
+}
+
+// guardedBySlot: x executes only when the slot was found occupied (want=true) / empty (want=false).
+func guardedBySlot(x ssa.Instruction, want bool) bool {
+	for _, a := range core.GuardAtoms(x) {
+		if isTest, occOnTrue := slotTest(a.Cond); isTest && (occOnTrue == a.True) == want {
+			return true
+		}
+	}
+	return false
+}
